@@ -199,23 +199,40 @@ class HeaderTypes:
         self.bits = bits
         self.endianness = endianness
 
+        # Multi-byte fields are stored in the byte order announced in
+        # e_ident[EI_DATA], with the standard (not native) field sizes.
+        byte_order = "<" if endianness == Endianness.LITTLE else ">"
+
+        def field_type(fmt):
+            def mk_field(name=None):
+                return header.FormatField(name, byte_order + fmt)
+
+            return mk_field
+
+        Uint8 = field_type("B")
+        Uint16 = field_type("H")
+        Uint32 = field_type("I")
+        Uint64 = field_type("Q")
+        Int32 = field_type("i")
+        Int64 = field_type("q")
+
         if bits == 64:
             self.ElfHeader = header.mk_header(
                 "ElfHeader",
                 [
-                    header.Uint16("e_type"),
-                    header.Uint16("e_machine"),
-                    header.Uint32("e_version"),
-                    header.Uint64("e_entry"),
-                    header.Uint64("e_phoff"),
-                    header.Uint64("e_shoff"),
-                    header.Uint32("e_flags"),
-                    header.Uint16("e_ehsize"),
-                    header.Uint16("e_phentsize"),
-                    header.Uint16("e_phnum"),
-                    header.Uint16("e_shentsize"),
-                    header.Uint16("e_shnum"),
-                    header.Uint16("e_shstrndx"),
+                    Uint16("e_type"),
+                    Uint16("e_machine"),
+                    Uint32("e_version"),
+                    Uint64("e_entry"),
+                    Uint64("e_phoff"),
+                    Uint64("e_shoff"),
+                    Uint32("e_flags"),
+                    Uint16("e_ehsize"),
+                    Uint16("e_phentsize"),
+                    Uint16("e_phnum"),
+                    Uint16("e_shentsize"),
+                    Uint16("e_shnum"),
+                    Uint16("e_shstrndx"),
                 ],
             )
             assert self.ElfHeader.size + 16 == 64
@@ -223,19 +240,19 @@ class HeaderTypes:
             self.ElfHeader = header.mk_header(
                 "ElfHeader",
                 [
-                    header.Uint16("e_type"),
-                    header.Uint16("e_machine"),
-                    header.Uint32("e_version"),
-                    header.Uint32("e_entry"),
-                    header.Uint32("e_phoff"),
-                    header.Uint32("e_shoff"),
-                    header.Uint32("e_flags"),
-                    header.Uint16("e_ehsize"),
-                    header.Uint16("e_phentsize"),
-                    header.Uint16("e_phnum"),
-                    header.Uint16("e_shentsize"),
-                    header.Uint16("e_shnum"),
-                    header.Uint16("e_shstrndx"),
+                    Uint16("e_type"),
+                    Uint16("e_machine"),
+                    Uint32("e_version"),
+                    Uint32("e_entry"),
+                    Uint32("e_phoff"),
+                    Uint32("e_shoff"),
+                    Uint32("e_flags"),
+                    Uint16("e_ehsize"),
+                    Uint16("e_phentsize"),
+                    Uint16("e_phnum"),
+                    Uint16("e_shentsize"),
+                    Uint16("e_shnum"),
+                    Uint16("e_shstrndx"),
                 ],
             )
             assert self.ElfHeader.size + 16 == 0x34
@@ -244,16 +261,16 @@ class HeaderTypes:
             self.SectionHeader = header.mk_header(
                 "SectionHeader",
                 [
-                    header.Uint32("sh_name"),
-                    header.Uint32("sh_type"),
-                    header.Uint32("sh_flags"),
-                    header.Uint32("sh_addr"),
-                    header.Uint32("sh_offset"),
-                    header.Uint32("sh_size"),
-                    header.Uint32("sh_link"),
-                    header.Uint32("sh_info"),
-                    header.Uint32("sh_addralign"),
-                    header.Uint32("sh_entsize"),
+                    Uint32("sh_name"),
+                    Uint32("sh_type"),
+                    Uint32("sh_flags"),
+                    Uint32("sh_addr"),
+                    Uint32("sh_offset"),
+                    Uint32("sh_size"),
+                    Uint32("sh_link"),
+                    Uint32("sh_info"),
+                    Uint32("sh_addralign"),
+                    Uint32("sh_entsize"),
                 ],
             )
             assert self.SectionHeader.size == 0x28
@@ -261,16 +278,16 @@ class HeaderTypes:
             self.SectionHeader = header.mk_header(
                 "SectionHeader",
                 [
-                    header.Uint32("sh_name"),
-                    header.Uint32("sh_type"),
-                    header.Uint64("sh_flags"),
-                    header.Uint64("sh_addr"),
-                    header.Uint64("sh_offset"),
-                    header.Uint64("sh_size"),
-                    header.Uint32("sh_link"),
-                    header.Uint32("sh_info"),
-                    header.Uint64("sh_addralign"),
-                    header.Uint64("sh_entsize"),
+                    Uint32("sh_name"),
+                    Uint32("sh_type"),
+                    Uint64("sh_flags"),
+                    Uint64("sh_addr"),
+                    Uint64("sh_offset"),
+                    Uint64("sh_size"),
+                    Uint32("sh_link"),
+                    Uint32("sh_info"),
+                    Uint64("sh_addralign"),
+                    Uint64("sh_entsize"),
                 ],
             )
             assert self.SectionHeader.size == 0x40
@@ -279,14 +296,14 @@ class HeaderTypes:
             self.ProgramHeader = header.mk_header(
                 "ProgramHeader",
                 [
-                    header.Uint32("p_type"),
-                    header.Uint32("p_flags"),
-                    header.Uint64("p_offset"),
-                    header.Uint64("p_vaddr"),
-                    header.Uint64("p_paddr"),
-                    header.Uint64("p_filesz"),
-                    header.Uint64("p_memsz"),
-                    header.Uint64("p_align"),
+                    Uint32("p_type"),
+                    Uint32("p_flags"),
+                    Uint64("p_offset"),
+                    Uint64("p_vaddr"),
+                    Uint64("p_paddr"),
+                    Uint64("p_filesz"),
+                    Uint64("p_memsz"),
+                    Uint64("p_align"),
                 ],
             )
             assert self.ProgramHeader.size == 0x38
@@ -294,14 +311,14 @@ class HeaderTypes:
             self.ProgramHeader = header.mk_header(
                 "ProgramHeader",
                 [
-                    header.Uint32("p_type"),
-                    header.Uint32("p_offset"),
-                    header.Uint32("p_vaddr"),
-                    header.Uint32("p_paddr"),
-                    header.Uint32("p_filesz"),
-                    header.Uint32("p_memsz"),
-                    header.Uint32("p_flags"),
-                    header.Uint32("p_align"),
+                    Uint32("p_type"),
+                    Uint32("p_offset"),
+                    Uint32("p_vaddr"),
+                    Uint32("p_paddr"),
+                    Uint32("p_filesz"),
+                    Uint32("p_memsz"),
+                    Uint32("p_flags"),
+                    Uint32("p_align"),
                 ],
             )
             assert self.ProgramHeader.size == 0x20
@@ -310,12 +327,12 @@ class HeaderTypes:
             self.SymbolTableEntry = header.mk_header(
                 "SymbolTableEntry",
                 [
-                    header.Uint32("st_name"),
-                    header.Uint8("st_info"),
-                    header.Uint8("st_other"),
-                    header.Uint16("st_shndx"),
-                    header.Uint64("st_value"),
-                    header.Uint64("st_size"),
+                    Uint32("st_name"),
+                    Uint8("st_info"),
+                    Uint8("st_other"),
+                    Uint16("st_shndx"),
+                    Uint64("st_value"),
+                    Uint64("st_size"),
                 ],
             )
             assert self.SymbolTableEntry.size == 24
@@ -323,12 +340,12 @@ class HeaderTypes:
             self.SymbolTableEntry = header.mk_header(
                 "SymbolTableEntry",
                 [
-                    header.Uint32("st_name"),
-                    header.Uint32("st_value"),
-                    header.Uint32("st_size"),
-                    header.Uint8("st_info"),
-                    header.Uint8("st_other"),
-                    header.Uint16("st_shndx"),
+                    Uint32("st_name"),
+                    Uint32("st_value"),
+                    Uint32("st_size"),
+                    Uint8("st_info"),
+                    Uint8("st_other"),
+                    Uint16("st_shndx"),
                 ],
             )
             assert self.SymbolTableEntry.size == 16
@@ -337,9 +354,9 @@ class HeaderTypes:
             self.RelocationTableEntry = header.mk_header(
                 "RelocationTableEntry",
                 [
-                    header.Uint64("r_offset"),
-                    header.Uint64("r_info"),
-                    header.Int64("r_addend"),
+                    Uint64("r_offset"),
+                    Uint64("r_info"),
+                    Int64("r_addend"),
                 ],
             )
             assert self.RelocationTableEntry.size == 24
@@ -347,9 +364,9 @@ class HeaderTypes:
             self.RelocationTableEntry = header.mk_header(
                 "RelocationTableEntry",
                 [
-                    header.Uint32("r_offset"),
-                    header.Uint32("r_info"),
-                    header.Int32("r_addend"),
+                    Uint32("r_offset"),
+                    Uint32("r_info"),
+                    Int32("r_addend"),
                 ],
             )
             assert self.RelocationTableEntry.size == 12
@@ -358,8 +375,8 @@ class HeaderTypes:
             self.DynamicEntry = header.mk_header(
                 "DynamicEntry",
                 [
-                    header.Int64("d_tag"),
-                    header.Uint64("d_val"),
+                    Int64("d_tag"),
+                    Uint64("d_val"),
                 ],
             )
             assert self.DynamicEntry.size == 16
@@ -367,8 +384,8 @@ class HeaderTypes:
             self.DynamicEntry = header.mk_header(
                 "DynamicEntry",
                 [
-                    header.Int32("d_tag"),
-                    header.Uint32("d_val"),
+                    Int32("d_tag"),
+                    Uint32("d_val"),
                 ],
             )
             assert self.DynamicEntry.size == 8
